@@ -668,6 +668,30 @@ example : gContains exG exP 1 6 = true ∧ gObjects exG (.seq (.iri 10) [.inv (.
     gObjects exG (.alt [.iri 10, .inv (.iri 10)]) (some 1) false = [2, 2] ∧
     gObjects exG (.alt [.iri 10, .inv (.iri 10)]) (some 1) true = [2] ∧ gValueObj exG exP 9 = none := by decide
 
+/-! ### Round g — the public `first` flag of `MulPath.eval` -/
+
+/-- `first=True` (the default, what `Graph.triples` uses) is the evaluation above; `first=False` with an end given yields
+    exactly the pairs joined by one or more steps (`?`: exactly one step) — the zero-length pair only if a cycle returns —
+    still duplicate-free; with both ends free the flag changes nothing. -/
+def Statement_mul_first_flag : Prop :=
+  ∀ (g : Graph) (p : Path) (m : Mod) (s o : Option Term),
+    mulEvalF g (evalPath g p) m true s o = evalPath g (.mul p m) s o ∧
+    (mulEvalF g (evalPath g p) m false s o).Nodup ∧
+    ∀ x y, (x, y) ∈ mulEvalF g (evalPath g p) m false s o ↔
+      (if s = none ∧ o = none then closure m (relC g p) x y
+       else (if m.more = true then TransGen (relC g p) x y else relC g p x y)) ∧
+      (∀ a, s = some a → x = a) ∧ (∀ b, o = some b → y = b) ∧ (s = none → o = none → x ∈ nodes g ∧ y ∈ nodes g)
+
+theorem mul_first_flag : Statement_mul_first_flag := by
+  intro g p m s o
+  refine ⟨by rw [mulEvalF_true, evalPath], ?_, fun x y => mulF_false_correct (evalPath_computes g p) (relC_iso g p) m s o x y⟩
+  simp only [mulEvalF, Bool.and_false, Bool.false_eq_true, if_false, List.nil_append]
+  exact nodup_dedupInto _ _
+
+example : mulEvalF exG (evalPath exG (.iri 10)) .zeroOrMore false (some 1) none = [(1, 2), (1, 1)] ∧
+    mulEvalF exG (evalPath exG (.iri 11)) .zeroOrMore false (some 2) none = [(2, 4), (2, 5), (2, 6)] ∧
+    mulEvalF exG (evalPath exG (.iri 10)) .zeroOrOne false none (some 9) = [] := by decide
+
 /-! ### The repaired defects of the pinned code (before the `fix:` commits now on /repo main), kept as
     regression witnesses.  Each definition is the pre-fix generator; each theorem shows on a
     concrete instance that it violates the property. -/
